@@ -65,13 +65,18 @@ def fit_record(Xi, Yi, a, k, space, solver, route, y1d=False, Xn=None, pre=None,
                         "pxy": fq(np.reshape(m_.pxy_, (X.shape[1], -1))),
                         "pred_ndim": int(np.ndim(Yp)), "pxy_ndim": int(np.ndim(m_.pxy_)), "pty_ndim": int(np.ndim(m_.pty_)),
                         "score": int(round(float(m_.score(X, Yarg if route != "pre" else Yarg)) * S)) if route != "pre" else 0,
-                        "Xn": [], "Tn": [], "Ypn": [], "YpTn": [], "lamfull": [], "cmpY": True,
+                        "Xn": [], "Tn": [], "Ypn": [], "YpTn": [], "Yn": [], "Xrn": [], "scoren": 0, "lamfull": [], "cmpY": True,
                         "comp": [], "That": [], "pcaV": [], "lrW": []})
             if Xn is not None:
                 Xnf = Xn / 4.0
                 Tn = m_.transform(Xnf)
                 rec.update({"Xn": Xn.astype(int).tolist(), "Tn": fq(Tn), "Ypn": fq(np.reshape(m_.predict(Xnf), (len(Xnf), -1))),
                             "YpTn": fq(np.reshape(m_.predict(T=Tn), (len(Xnf), -1)))})
+                if route != "pre":
+                    # score on data the model was not fitted on (targets of the new rows: a fixed linear map of them)
+                    Ynf = (Xnf[:, :1] - Xnf[:, 1:2] * 0.5) @ np.ones((1, Y.shape[1])) + 0.25
+                    Ynarg = Ynf[:, 0] if y1d else Ynf
+                    rec.update({"Yn": fq(Ynf), "Xrn": fq(m_.inverse_transform(Tn)), "scoren": int(round(float(m_.score(Xnf, Ynarg)) * S))})
             rec["_Yh"] = Yh
             rec["_W"] = m_.regressor_.coef_.T.reshape(X.shape[1], -1) if route != "pre" else None
             rec["_T"] = T
